@@ -595,6 +595,12 @@ func (c *campaign) report(seed uint64, t0 time.Time) int {
 		if gating {
 			if f := matchFinding(findings, c.spec.ID, v); f != nil {
 				if !knownPrinted[f.ID] {
+					// keep the run that showed it (unminimised) so that the finding can be replayed against this tree
+					if orig != "" {
+						keep := filepath.Join(outRoot, "replays", fmt.Sprintf("%s-known-%s.orig.json", c.spec.ID, f.ID))
+						copyFile(orig, keep)
+						setProperty(keep, c.spec.ID)
+					}
 					fmt.Printf("KNOWN-FINDING: property=%s %s [%s]\n", c.spec.ID, f.What, f.ID)
 					knownPrinted[f.ID] = true
 					knownSeen = append(knownSeen, f.ID)
